@@ -146,12 +146,14 @@ Section Memo.
 
   (* ---- faithful locations ---- *)
   Variable M : loc -> fmap.
+  Variable locs : list loc.
 
   Inductive fok : finfo -> Prop :=
   | fok_intro f :
       (forall l1 s1, fi_sub f = Some (l1, s1) ->
          M l1 = fst (fields_and_fragments s (option_map unwrap (ft f)) s1)
-         /\ forall k fs f', In (k, fs) (M l1) -> In f' fs -> fok f') ->
+         /\ (forall k fs f', In (k, fs) (M l1) -> In f' fs -> fok f')
+         /\ In l1 locs) ->
       fok f.
   Definition mok (m : fmap) : Prop := forall k fs f, In (k, fs) m -> In f fs -> fok f.
 
@@ -159,11 +161,11 @@ Section Memo.
     match c with
     | CFind _ f1 f2 => fok f1 /\ fok f2
     | CBetween _ m1 m2 => mok m1 /\ mok m2
-    | CFieldsFrag _ mid m _ => m = M mid /\ mok m
+    | CFieldsFrag _ mid m _ => m = M mid /\ mok m /\ In mid locs
     | CFrags _ _ _ => True
     | CSub _ p1 l1 s1 p2 l2 s2 =>
-        (M l1 = fst (fields_and_fragments s p1 s1) /\ mok (M l1))
-        /\ (M l2 = fst (fields_and_fragments s p2 s2) /\ mok (M l2))
+        (M l1 = fst (fields_and_fragments s p1 s1) /\ mok (M l1) /\ In l1 locs)
+        /\ (M l2 = fst (fields_and_fragments s p2 s2) /\ mok (M l2) /\ In l2 locs)
     end.
   Hypothesis frs_ok : forall g fm fns, frag_ff s frs g = Some (fm, fns) -> mok fm.
 
@@ -195,7 +197,7 @@ Section Memo.
   Lemma wfc_sub me p1 l1 s1 p2 l2 s2 c :
     wfc (CSub me p1 l1 s1 p2 l2 s2) -> In c (sub_calls me p1 l1 s1 p2 l2 s2) -> wfc c.
   Proof.
-    intros [[E1 K1] [E2 K2]] Hc. unfold sub_calls in Hc. cbv zeta in Hc. destruct Hc as [<-|Hc].
+    intros [[E1 [K1 L1]] [E2 [K2 L2]]] Hc. unfold sub_calls in Hc. cbv zeta in Hc. destruct Hc as [<-|Hc].
     - unfold wfc. rewrite <- E1, <- E2. tauto.
     - apply in_app_or in Hc. destruct Hc as [Hc|Hc].
       + apply in_map_iff in Hc. destruct Hc as [x [<- _]]. unfold wfc. rewrite <- E1. tauto.
@@ -418,7 +420,7 @@ Section Memo.
       destruct (Hseq _ _ _ _ H) as (_ & Hp & Hs); [intros c Hc; exact (wfc_between me m1 m2 c K1 K2 Hc)|exact Hnd|].
       split; [exact Hp|apply sat_between; exact Hs].
     - (* CFieldsFrag *)
-      rewrite run_S_ff in H. destruct Hwf as [EM Km].
+      rewrite run_S_ff in H. destruct Hwf as [EM [Km Lm]].
       destruct (q_take mid g me (snd st)) as [q'|] eqn:Eq.
       + assert (Hle1 : st_le (fst st, q') st).
         { split; [|intros a b me0 E; exact E]. intros mid2 g2 me2 Hd. unfold qdone in *. simpl. eapply q_take_le; eassumption. }
@@ -506,7 +508,7 @@ Section Memo.
 
   Definition events_ok (es : list ev) : Prop :=
     forall parent l sels, In (ESelSet parent l sels) es ->
-      M l = fst (fields_and_fragments s parent sels) /\ mok (M l).
+      M l = fst (fields_and_fragments s parent sels) /\ mok (M l) /\ In l locs.
 
   Lemma in_perms {A} (l : list A) x y : In (x, y) (perms l) -> In x l /\ In y l.
   Proof.
@@ -516,9 +518,9 @@ Section Memo.
   Qed.
 
   Lemma wfc_selset parent l sels c :
-    M l = fst (fields_and_fragments s parent sels) -> mok (M l) -> In c (selset_calls s parent l sels) -> wfc c.
+    M l = fst (fields_and_fragments s parent sels) -> mok (M l) -> In l locs -> In c (selset_calls s parent l sels) -> wfc c.
   Proof.
-    intros EM Km Hc. unfold selset_calls in Hc. cbv zeta in Hc. rewrite <- EM in Hc.
+    intros EM Km Ll Hc. unfold selset_calls in Hc. cbv zeta in Hc. rewrite <- EM in Hc.
     apply in_app_or in Hc. destruct Hc as [Hc|Hc].
     - apply in_flat_map in Hc. destruct Hc as [[k fs] [Hk Hc]]. apply in_map_iff in Hc. destruct Hc as [[g1 g2] [<- Hp]].
       apply in_perms in Hp. simpl in *. split; eapply Km; try exact Hk; tauto.
@@ -541,7 +543,7 @@ Section Memo.
       destruct (run_list fuel s frs (selset_calls s parent l sels) st false) as [[b1 st1]| | |] eqn:Hr; simpl in H; try discriminate.
       destruct (overlap_events fuel s frs es st1) as [rest| | |] eqn:Hrest; simpl in H; try discriminate.
       inversion H as [Happ]. apply app_eq_nil in Happ. destruct Happ as [Hb ->]. destruct b1; [discriminate|].
-      destruct (Hok parent l sels (or_introl eq_refl)) as [EM Km].
+      destruct (Hok parent l sels (or_introl eq_refl)) as [EM [Km Ll]].
       destruct (run_list_sound _ _ _ _ _ Hr) as ((Hle1 & Ef1 & Hn1) & Hs1);
         [intros c Hc; eapply wfc_selset; eassumption|exact Hnd|].
       destruct (IH st1 Hrest Hok') as [stf [(Hle2 & Ef2 & Hn2) Hs2]]; [rewrite Ef1; exact Hnd|].
@@ -553,9 +555,12 @@ Section Memo.
   Qed.
 
   (* ---- from the final memo state to the fields of the fragments ---- *)
-  Lemma sat_find_mergeable st f1 f2 : sat st (CFind false f1 f2) -> pair_mergeable s f1 f2.
+  Lemma cond_mergeable f1 f2 :
+    negb (mexf false f1 f2) && negb (str_eqb (fi_name f1) (fi_name f2)) = false ->
+    negb (mexf false f1 f2) && negb (same_arguments (fi_args f1) (fi_args f2)) = false ->
+    tconf f1 f2 = false -> pair_mergeable s f1 f2.
   Proof.
-    intros H. inversion H as [me g1 g2 E1 E2 E3 _| | | |]; subst. unfold pair_mergeable, exclusive_parents.
+    intros E1 E2 E3. unfold pair_mergeable, exclusive_parents.
     unfold mexf in E1, E2. simpl in E1, E2. split.
     - destruct (negb (opt_name_eqb (fi_parent f1) (fi_parent f2)) && opt_is_object s (fi_parent f1)
                 && opt_is_object s (fi_parent f2)) eqn:Hm; simpl in E1, E2.
@@ -565,6 +570,9 @@ Section Memo.
         split; [exact E1|apply same_arguments_sound; exact E2].
     - intros d1 d2 D1 D2. unfold tconf, ft in E3. rewrite D1, D2 in E3. apply types_conflict_sound. exact E3.
   Qed.
+
+  Lemma sat_find_mergeable st f1 f2 : sat st (CFind false f1 f2) -> pair_mergeable s f1 f2.
+  Proof. intros H. inversion H as [me g1 g2 E1 E2 E3 _| | | |]; subst. apply cond_mergeable; assumption. Qed.
 
   (* fragment g' is spread, directly or through other fragments, by fragment g *)
   Inductive sreach : str -> str -> Prop :=
@@ -614,6 +622,84 @@ Section Memo.
         destruct (proj2 Hcov x y false (Hav _ _ _ _ _ _ Ex Ey) E _ _ _ _ Ex Ey) as (_ & _ & Hr'). apply Hr'. exact Hin.
     Qed.
   End Final.
+
+  (* ---- the memo-free search ---- *)
+  (* one unfolding of a call without the memo sets: the local conditions of a
+     pair of fields, and the calls it makes *)
+  Definition step (X : call -> Prop) (c : call) : Prop :=
+    match c with
+    | CFind me f1 f2 =>
+        negb (mexf me f1 f2) && negb (str_eqb (fi_name f1) (fi_name f2)) = false
+        /\ negb (mexf me f1 f2) && negb (same_arguments (fi_args f1) (fi_args f2)) = false
+        /\ tconf f1 f2 = false
+        /\ forall l1 s1 l2 s2, fi_sub f1 = Some (l1, s1) -> fi_sub f2 = Some (l2, s2) ->
+             X (CSub (mexf me f1 f2) (option_map unwrap (ft f1)) l1 s1 (option_map unwrap (ft f2)) l2 s2)
+    | CBetween me m1 m2 => forall c', In c' (between_calls me m1 m2) -> X c'
+    | CFieldsFrag me mid m g =>
+        forall fm fns, frag_ff s frs g = Some (fm, fns) ->
+          X (CBetween me m fm) /\ forall g', In g' fns -> X (CFieldsFrag me mid m g')
+    | CFrags me a b =>
+        a = b \/
+        forall fm1 fns1 fm2 fns2, frag_ff s frs a = Some (fm1, fns1) -> frag_ff s frs b = Some (fm2, fns2) ->
+          (X (CBetween me fm1 fm2) \/ X (CBetween me fm2 fm1))
+          /\ (forall x, In x fns1 -> X (CFrags me x b)) /\ (forall x, In x fns2 -> X (CFrags me a x))
+    | CSub me p1 l1 s1 p2 l2 s2 => forall c', In c' (sub_calls me p1 l1 s1 p2 l2 s2) -> X c'
+    end.
+
+  (* the memo-free search from [c] meets no conflict, at any depth (greatest
+     fixed point of [step]: the search tree is infinite on cyclic fragments) *)
+  Definition conflict_free (c : call) : Prop := exists X : call -> Prop, X c /\ forall c', X c' -> step X c'.
+
+  Lemma step_mono (X Y : call -> Prop) c : (forall c', X c' -> Y c') -> step X c -> step Y c.
+  Proof.
+    intros HXY. destruct c as [me f1 f2|me m1 m2|me mid m g|me a b|me p1 l1 s1 p2 l2 s2]; cbn [step].
+    - intros (H1 & H2 & H3 & H4). split; [exact H1|]. split; [exact H2|]. split; [exact H3|]. intros l1 s1 l2 s2 E1 E2. apply HXY. eapply H4; eassumption.
+    - intros H c' Hc'. apply HXY. apply H. exact Hc'.
+    - intros H fm fns E. destruct (H fm fns E) as [H1 H2]. split; [apply HXY; exact H1|intros g' Hg'; apply HXY; apply H2; exact Hg'].
+    - intros [E|H]; [left; exact E|right]. intros fm1 fns1 fm2 fns2 E1 E2. destruct (H _ _ _ _ E1 E2) as (H1 & H2 & H3).
+      split; [destruct H1 as [H1|H1]; [left|right]; apply HXY; exact H1|].
+      split; intros x Hx; apply HXY; [apply H2|apply H3]; exact Hx.
+    - intros H c' Hc'. apply HXY. apply H. exact Hc'.
+  Qed.
+
+  Lemma conflict_free_unfold c : conflict_free c -> step conflict_free c.
+  Proof.
+    intros [X [Hc HX]]. eapply step_mono; [|apply HX; exact Hc]. intros c' Hc'. exists X. split; [exact Hc'|exact HX].
+  Qed.
+
+  Section Deep.
+    Variables (st0 stf : ostate).
+    Hypothesis Hcov : newcov st0 stf.
+    Hypothesis HavQ : forall mid g me fm fns, In mid locs -> frag_ff s frs g = Some (fm, fns) -> ~ qdone st0 mid g me.
+    Hypothesis HavP : forall u v me fm fns fm' fns', frag_ff s frs u = Some (fm, fns) -> frag_ff s frs v = Some (fm', fns') ->
+                        existsb (pkey_match u v me) (fst st0) = true.
+
+    Lemma sat_closed c : wfc c /\ sat stf c -> step (fun c' => wfc c' /\ sat stf c') c.
+    Proof.
+      intros [Hwf Hs]. destruct c as [me f1 f2|me m1 m2|me mid m g|me a b|me p1 l1 s1 p2 l2 s2].
+      - inversion Hs as [me' g1 g2 E1 E2 E3 Hsub| | | |]; subst. cbn [step]. split; [exact E1|]. split; [exact E2|]. split; [exact E3|].
+        intros l1 s1 l2 s2 S1 S2. split; [|apply Hsub; assumption].
+        destruct Hwf as [K1 K2]. inversion K1 as [x Hx]; subst. inversion K2 as [y Hy]; subst.
+        split; [apply Hx; exact S1|apply Hy; exact S2].
+      - inversion Hs as [|me' a' b' Hall| | |]; subst. cbn [step]. intros c' Hc'. destruct Hwf as [K1 K2].
+        split; [exact (wfc_between me m1 m2 c' K1 K2 Hc')|apply Hall; exact Hc'].
+      - inversion Hs as [| |me' mid' m' g' Hq| |]; subst. destruct Hwf as [EM [Km Lm]]. cbn [step]. intros fm fns E.
+        destruct (proj1 Hcov mid g me (HavQ mid g me fm fns Lm E) Hq fm fns E) as [Hb Hall]. split.
+        + split; [split; [exact Km|eapply frs_ok; exact E]|]. rewrite EM. exact Hb.
+        + intros g' Hg'. split; [cbn [wfc]; tauto|apply sat_ff; apply Hall; exact Hg'].
+      - inversion Hs as [| | |me' a' b' Hp|]; subst. cbn [step]. destruct Hp as [E|E]; [left; exact E|right].
+        intros fm1 fns1 fm2 fns2 E1 E2.
+        destruct (proj2 Hcov a b me (HavP a b me _ _ _ _ E1 E2) E _ _ _ _ E1 E2) as (Hb & Hl & Hr). split; [|split].
+        * destruct Hb as [Hb|Hb]; [left|right]; (split; [split; eapply frs_ok; eassumption|exact Hb]).
+        * intros x Hx. split; [exact I|apply sat_frags; apply Hl; exact Hx].
+        * intros x Hx. split; [exact I|apply sat_frags; apply Hr; exact Hx].
+      - inversion Hs as [| | | |me' p1' l1' s1' p2' l2' s2' Hall]; subst. cbn [step]. intros c' Hc'.
+        split; [eapply wfc_sub; eassumption|apply Hall; exact Hc'].
+    Qed.
+
+    Lemma sat_conflict_free c : wfc c -> sat stf c -> conflict_free c.
+    Proof. intros Hwf Hs. exists (fun c' => wfc c' /\ sat stf c'). split; [tauto|]. intros c' Hc'. apply sat_closed. exact Hc'. Qed.
+  End Deep.
 End Memo.
 
 (* ---- the initial memo state holds every key of the document ---- *)
@@ -662,8 +748,9 @@ Proof. unfold ff_universe. rewrite map_map. simpl. apply map_id. Qed.
    sub-selections of their fields (hereditarily) and the fragments agree with *)
 Definition faithful_locations (s : schema) (d : document) : Prop :=
   NoDup (selset_locs (doc_events s d)) /\
-  exists M, events_ok s M (doc_events s d)
-            /\ forall g fm fns, frag_ff s (frag_table (doc_defs d)) g = Some (fm, fns) -> mok s M fm.
+  exists M, events_ok s M (selset_locs (doc_events s d)) (doc_events s d)
+            /\ forall g fm fns, frag_ff s (frag_table (doc_defs d)) g = Some (fm, fns) ->
+                               mok s M (selset_locs (doc_events s d)) fm.
 
 Theorem merge_named fuel s d :
   faithful_locations s d ->
@@ -681,9 +768,9 @@ Theorem merge_named fuel s d :
 Proof.
   intros [Hnd [M [Hev Hfr]]] H parent l sels Hin frs ff.
   unfold r25_overlapping_fields in H.
-  destruct (overlap_events_sound s frs M Hfr fuel _ _ H Hev) as [stf [(Hle & Ef & Hcov) Hsat]].
+  destruct (overlap_events_sound s frs M _ Hfr fuel _ _ H Hev) as [stf [(Hle & Ef & Hcov) Hsat]].
   { unfold initial_state. simpl. rewrite ff_universe_fst. exact Hnd. }
-  specialize (Hsat parent l sels Hin). destruct (Hev parent l sels Hin) as [EM Km].
+  specialize (Hsat parent l sels Hin). destruct (Hev parent l sels Hin) as [EM [Km Ll]].
   assert (HavQ : forall x fm fns, frag_ff s frs x = Some (fm, fns) -> ~ qdone (initial_state s d) l x false).
   { intros x fm fns E. unfold qdone, initial_state. simpl. apply q_take_universe.
     - eapply selset_locs_in. exact Hin.
@@ -711,4 +798,37 @@ Proof.
     destruct (proj2 Hcov x y false (HavP _ _ _ _ _ _ Ex Ey) E _ _ _ _ Ex Ey) as ([Hb|Hb] & _).
     + left. eapply sat_between_mergeable. exact Hb.
     + right. eapply sat_between_mergeable. exact Hb.
+Qed.
+
+(* ---- every depth: the memo-free search meets no conflict ---- *)
+Theorem merge_deep fuel s d :
+  faithful_locations s d ->
+  r25_overlapping_fields fuel s d = Ok [] ->
+  forall parent l sels, In (ESelSet parent l sels) (doc_events s d) ->
+    forall c, In c (selset_calls s parent l sels) -> conflict_free s (frag_table (doc_defs d)) c.
+Proof.
+  intros [Hnd [M [Hev Hfr]]] H parent l sels Hin c Hc.
+  unfold r25_overlapping_fields in H.
+  destruct (overlap_events_sound s _ M _ Hfr fuel _ _ H Hev) as [stf [(Hle & Ef & Hcov) Hsat]].
+  { unfold initial_state. simpl. rewrite ff_universe_fst. exact Hnd. }
+  destruct (Hev parent l sels Hin) as [EM [Km Ll]].
+  apply (sat_conflict_free s _ M _ Hfr (initial_state s d) stf Hcov).
+  - intros mid g me fm fns Hmid E. unfold qdone, initial_state. simpl. apply q_take_universe; [exact Hmid|].
+    eapply frag_ff_name. exact E.
+  - intros u v me fm fns fm' fns' Eu Ev. unfold initial_state. simpl. apply pair_universe_in; eapply frag_ff_name; eassumption.
+  - eapply wfc_selset; eassumption.
+  - apply (Hsat parent l sels Hin). exact Hc.
+Qed.
+
+(* what [conflict_free] says of a pair of fields compared without the
+   exclusivity flag: the pairwise conditions, and the memo-free search of the
+   two sub-selections against each other *)
+Lemma conflict_free_find s frs f1 f2 :
+  conflict_free s frs (CFind false f1 f2) ->
+  pair_mergeable s f1 f2 /\
+  forall l1 s1 l2 s2, fi_sub f1 = Some (l1, s1) -> fi_sub f2 = Some (l2, s2) ->
+    conflict_free s frs (CSub (mexf s false f1 f2) (option_map unwrap (ft f1)) l1 s1 (option_map unwrap (ft f2)) l2 s2).
+Proof.
+  intros H. apply conflict_free_unfold in H. cbn [step] in H. destruct H as (E1 & E2 & E3 & Hsub).
+  split; [apply cond_mergeable; assumption|exact Hsub].
 Qed.
